@@ -81,6 +81,15 @@ def lean_axioms(module, theorems):
             res[t] = None
     return res, out
 
+def lean_recheck(module):
+    """Lean's independent re-checker over the compiled module (and, transitively, what it imports): replays every declaration through the
+    kernel from the .olean files; returns (ok, detail)"""
+    try:
+        rc, out = run(["lake", "env", "leanchecker", module], cwd=LEAN, timeout=900)
+    except subprocess.TimeoutExpired:
+        return False, "leanchecker timed out"
+    return rc == 0, (out.strip()[-300:] if rc != 0 else "replayed by leanchecker")
+
 ALLOWED_AXIOMS = {"propext", "Classical.choice", "Quot.sound"}
 FORBIDDEN_RE = re.compile(r"\bsorry\b|\badmit\b|^axiom |native_decide|bv_decide|implemented_by|\bunsafe |maxHeartbeats 0", re.M)
 
